@@ -232,11 +232,11 @@ func r1(c *core.Ctx, s *c03.Sender) *envelope {
 		n := pt.Node()
 		for _, call := range cfgq.ExecCalls(n.N) {
 			for _, m := range []string{"Flush", "Do"} {
-				if cx, ok := c03.ConnMethod(n.C.Info, call, m); ok && !c03.IsObj(info, s.Conn)(x.Resolve(n.C, cx)) {
+				if cx, ok := c03.ConnMethod(n.C.Info, call, m); ok && !c03.SameVar(info, s.Fn.Decl, s.Conn)(x.Resolve(n.C, cx)) {
 					same = false
 				}
 			}
-			if site := c03.SendOf(n.C.Info, call); site != nil && !c03.IsObj(info, s.Conn)(x.Resolve(n.C, site.Conn)) {
+			if site := c03.SendOf(n.C.Info, call); site != nil && !c03.SameVar(info, s.Fn.Decl, s.Conn)(x.Resolve(n.C, site.Conn)) {
 				same = false
 			}
 		}
@@ -280,21 +280,43 @@ func exemption(c *core.Ctx, s *c03.Sender, e *envelope) {
 			return true
 		}
 		n++
-		// the guarding condition
+		// the guarding condition: an if, or a case of a tagless switch
 		var cond ast.Expr
 		path := core.PathTo(s.Lit, as)
-		for i := len(path) - 1; i > 0; i-- {
+		for i := len(path) - 1; i > 0 && cond == nil; i-- {
 			if ifs, ok := path[i-1].(*ast.IfStmt); ok && path[i] == ast.Node(ifs.Body) {
 				cond = ifs.Cond
-				break
+			}
+			if cc, ok := path[i].(*ast.CaseClause); ok && i >= 2 {
+				if sw, ok := path[i-2].(*ast.SwitchStmt); ok && sw.Tag == nil && len(cc.List) > 0 {
+					cond = cc.List[0]
+					for _, e := range cc.List[1:] {
+						cond = &ast.BinaryExpr{X: cond, Op: token.LOR, Y: e}
+					}
+				}
 			}
 		}
 		ok = false
 		if cond != nil {
-			b := pat.Expr(`!_ds.enableResumeFromBreakPoint || (_n == 1 && _last.Cmd == "ping")`).Match(info, cond, nil)
-			if b != nil {
-				_, isLast := lastOfBatch(info, s, b["_last"].(ast.Expr))
-				ok = isLast
+			// every disjunct is "resume is off" or "the batch is a lone ping"
+			ok = true
+			alts := c03.Alts(cond, true)
+			if len(alts) == 0 { // not a disjunction: the condition is the only alternative
+				alts = []cfgq.Fact{{Expr: cond, Val: true}}
+			}
+			for _, ft := range alts {
+				if !ft.Val {
+					ft = cfgq.Fact{Expr: &ast.UnaryExpr{Op: token.NOT, X: ft.Expr}, Val: true}
+				}
+				if pat.Expr(`!_ds.enableResumeFromBreakPoint`).Match(info, ft.Expr, nil) != nil {
+					continue
+				}
+				if b := pat.Expr(`_n == 1 && _last.Cmd == "ping"`).Match(info, ft.Expr, nil); b != nil {
+					if _, isLast := lastOfBatch(info, s, b["_last"].(ast.Expr)); isLast {
+						continue
+					}
+				}
+				ok = false
 			}
 		}
 		if ok {
@@ -481,8 +503,10 @@ func hsetArgs(c *core.Ctx, s *c03.Sender, e *envelope) {
 		// field name: fmt.Sprintf("%s-%s", ds.node.Source, utils.<const>)
 		okName := false
 		if o, ok := c03.SoleOrigin(info, scope, call.Args[2]); ok && o.Expr != nil {
-			b := pat.Expr(`fmt.Sprintf("%s-%s", _ds.node.Source, _k)`).Match(info, o.Expr, nil)
-			okName = b != nil
+			okName = pat.Expr(`fmt.Sprintf("%s-%s", _ds.node.Source, _k)`).Match(info, o.Expr, nil) != nil ||
+				pat.Expr(`_ds.node.Source + "-" + _k`).Match(info, o.Expr, nil) != nil ||
+				pat.Expr(`fmt.Sprint(_ds.node.Source, "-", _k)`).Match(info, o.Expr, nil) != nil ||
+				pat.Expr(`strings.Join([]string{_ds.node.Source, _k}, "-")`).Match(info, o.Expr, nil) != nil
 		}
 		if okName {
 			c.Okf(rule, "hset-field/"+role, call.Pos(), "field name is <source address>-<constant>")
@@ -621,17 +645,24 @@ func r2(c *core.Ctx, s *c03.Sender, p *c03.Parser, e *envelope) {
 				c.Failf(rule, key, q.Pos(), "the enqueued command carries no Offset: its batch stores offset 0")
 				continue
 			}
+			if _, isID := ast.Unparen(off).(*ast.Ident); isID {
+				// the value may be carried in a temporary
+				if o, ok := c03.SoleOrigin(info, p.Fn.Decl, off); ok && o.Expr != nil && o.Op == 0 && !o.Range && o.Res < 0 {
+					off = o.Expr
+				}
+			}
 			off = dropZeroTerms(info, off)
 			be, isSum := ast.Unparen(off).(*ast.BinaryExpr)
+			isInc := c03.SameVar(info, p.Fn.Decl, p.Inc)
 			switch {
 			case !q.InLoop && c03.IsSourceOffset(info, off):
 				c.Okf(rule, key, q.Pos(), "the start SELECT is stamped with the resume offset itself")
 			case q.InLoop && isSum && be.Op == token.ADD &&
-				(c03.IsSourceOffset(info, be.X) && c03.IsObj(info, p.Inc)(be.Y) || c03.IsSourceOffset(info, be.Y) && c03.IsObj(info, p.Inc)(be.X)):
+				(c03.IsSourceOffset(info, be.X) && isInc(be.Y) || c03.IsSourceOffset(info, be.Y) && isInc(be.X)):
 				c.Okf(rule, key, q.Pos(), "Offset = ds.sourceOffset + decoder position after this command")
 			case q.InLoop && c03.IsSourceOffset(info, off):
 				c.Failf(rule, key, q.Pos(), "the command is stamped with the base offset only: every checkpoint stores the start offset, so a restart replays the whole stream since the start (commands applied twice)")
-			case q.InLoop && c03.IsObj(info, p.Inc)(off):
+			case q.InLoop && isInc(off):
 				c.Failf(rule, key, q.Pos(), "the command is stamped with the decoder position without the start offset: the stored offset is not a source replication offset and PSYNC after restart fails or jumps")
 			default:
 				c.Undecidedf(rule, key, q.Pos(), "Offset `%s` is not `ds.sourceOffset + <second result of MustDecodeOpt>`", c.Src(off))
@@ -899,9 +930,27 @@ func r5(c *core.Ctx, p *c03.Parser) {
 		c.Undecidedf(rule, "Sync/psync-call", syncFn.Decl.Pos(), "Sync does not call sendPSyncCmd, or the LoadCheckpoint results are not bound to locals")
 		return
 	}
+	// a value "comes from result #k of the load" when that is one of its origins (copies through temporaries are followed)
+	loadCall := ast.Unparen(anchor.Rhs[0])
+	runRes := 0
+	if anchor != load {
+		for i, l := range anchor.Lhs {
+			if core.ObjOf(info, l) == runV {
+				runRes = i
+			}
+		}
+	}
+	fromLoad := func(e ast.Expr, res int) bool {
+		for _, o := range c03.Origins(info, syncFn.Decl, e) {
+			if o.Expr != nil && ast.Unparen(o.Expr) == loadCall && o.Res == res {
+				return true
+			}
+		}
+		return false
+	}
 	argIdx := -1
 	for i, a := range pcall.Args {
-		if c03.IsObj(info, runV)(a) {
+		if c03.IsObj(info, runV)(a) || fromLoad(a, runRes) {
 			argIdx = i
 		}
 	}
@@ -924,8 +973,14 @@ func r5(c *core.Ctx, p *c03.Parser) {
 						continue
 					}
 				}
-				if c03.IsSourceOffset(info, l) || c03.IsObj(info, runV)(l) || c03.IsObj(info, dbV)(l) {
+				if c03.IsSourceOffset(info, l) {
 					return true
+				}
+				// a carrier of the loaded run id / database is overwritten with something else
+				if len(x.Lhs) == len(x.Rhs) && (fromLoad(l, runRes) && !fromLoad(x.Rhs[i], runRes) || fromLoad(l, dbRes) && !fromLoad(x.Rhs[i], dbRes)) {
+					if _, isID := ast.Unparen(l).(*ast.Ident); isID {
+						return true
+					}
 				}
 			}
 		case *ast.IncDecStmt:
@@ -936,13 +991,28 @@ func r5(c *core.Ctx, p *c03.Parser) {
 	w := g.Path(cfgq.Query{From: lp, After: true, Avoid: isPsyncCall, Target: clobber})
 	c.Check(rule, "Sync/no-clobber", load.Pos(), w == nil,
 		"between LoadCheckpoint and the PSYNC the loaded offset/run id/database must not be overwritten: PSYNC would start from another position than the checkpoint (commands lost or repeated)", w...)
-	w = g.Path(cfgq.Query{From: lp, After: true, Avoid: isPsyncCall, TargetExit: cfgq.NormalExit})
-	c.Check(rule, "Sync/psync-follows", load.Pos(), w == nil, "every path from LoadCheckpoint leads to sendPSyncCmd (or aborts)", w...)
+	// the error arm of the load may leave Sync; only the success paths must reach the PSYNC
+	var errV types.Object
+	errRes := len(anchor.Lhs) - 1
+	if last := anchor.Lhs[errRes]; cfgq.IsErrorType(info.TypeOf(last)) {
+		errV = core.ObjOf(info, last)
+	}
+	sfl := c03.NewFlow(g)
+	isErr := func(x ast.Expr) bool {
+		return c03.IsObj(info, errV)(x) || cfgq.IsErrorType(info.TypeOf(x)) && fromLoad(x, errRes)
+	}
+	failed := sfl.Edge(func(ft cfgq.Fact) bool {
+		eq, ok := c03.EqFact(ft, isErr, func(x ast.Expr) bool { return core.IsNil(info, x) })
+		return ok && !eq
+	})
+	w = g.Path(cfgq.Query{From: lp, After: true, Avoid: isPsyncCall, TargetExit: cfgq.NormalExit,
+		AvoidEdge: func(b *cfg.Block, i int) bool { return errV != nil && failed(b, i) }})
+	c.Check(rule, "Sync/psync-follows", load.Pos(), w == nil, "every path on which the checkpoint was loaded leads to sendPSyncCmd (or aborts)", w...)
 	// (c) dbid -> ds.startDbId before syncCommand
 	ws := c03.FieldWrites(c, c03.Syncer, "startDbId")
 	var startAs ast.Node
 	for _, wr := range ws {
-		if wr.In.Lit == nil && wr.In.Decl == syncFn.Decl && wr.Rhs != nil && c03.IsObj(info, dbV)(wr.Rhs) {
+		if wr.In.Lit == nil && wr.In.Decl == syncFn.Decl && wr.Rhs != nil && (c03.IsObj(info, dbV)(wr.Rhs) || fromLoad(wr.Rhs, dbRes)) {
 			startAs = wr.Stmt
 		} else {
 			c.Undecidedf(rule, "Sync/start-db/writer/"+wr.In.Name, wr.Stmt.Pos(), "ds.startDbId is written by `%s`", c.Src(wr.Stmt))
